@@ -5,7 +5,8 @@ ID = "C18"
 
 MANIFEST = {
     "level": "Bounded model checking by symbolic execution of the real TrueSingleton.__call__ and clear_true_singleton: "
-             "histories of depth 3 (quick) / 4 (thorough) over four classes (two independent singleton classes, a "
+             "histories of depth 3 (quick) / 4 (thorough) over four classes (two independent singleton classes - one of "
+             "whose constructors calls the global clear while it runs, for one argument value -, a "
              "subclass of one of them, and a class whose instances are falsy), starting from an arbitrary subset of "
              "classes already instantiated; op kinds and classes fork, constructor arguments (positional / keyword) are "
              "symbolic integers. After every step the real behaviour must equal a per-class reference (same object "
@@ -49,6 +50,9 @@ class B(metaclass=singleton.TrueSingleton):
         COUNT[type(self).__name__] += 1
         self.x = x
         self.y = y
+        if y == 3:
+            # a constructor that resets the program's other singletons while it runs
+            singleton.clear_true_singleton()
 
 class SubA(A):
     pass
@@ -89,6 +93,12 @@ def construct(ci, style, a1, a2):
         r = cls()
         fa = (None, None)
     if inst[ci] is None:
+        if NAMES[ci] == "B" and fa[1] == 3:
+            # its constructor cleared every singleton; the instance under construction becomes B's afterwards
+            j = 0
+            while j < 4:
+                inst[j] = None
+                j = j + 1
         inst[ci] = r
         first[ci] = fa
         cnt[ci] = cnt[ci] + 1
